@@ -2336,6 +2336,43 @@ def rewrapped_option(rows):
     return None
 
 
+def final_field_value(fn, e, field):
+    """the value field `field` of struct value `e` ends up with, as one expression, when that can be said without a case split: the
+    same value in every arm, or an Option that is Some(payload of D) exactly when D is Some and None exactly when D is None (i.e.
+    D itself), however the arms and builder calls are arranged.  None otherwise."""
+    rows = field_table(fn, e, field, kinds=True)
+    if not rows:
+        return None
+    rows = [([(strip(expand(fn, c[1])) if c[0] == 'discr' else None, c, l) for c, l in cs], strip(v), k) for cs, v, k in rows]
+    if all(k == 'base' for cs, v, k in rows) and all(repr(v) == repr(rows[0][1]) for cs, v, k in rows):
+        return rows[0][1]
+    somes = [(cs, v, k) for cs, v, k in rows if v[0] == 'agg' and v[1].endswith('Option::Some') and v[2]]
+    nones = [(cs, v, k) for cs, v, k in rows if v[0] == 'agg' and v[1].endswith('Option::None')]
+    if not somes or len(somes) + len(nones) != len(rows):
+        return None
+
+    def payload_src(v):
+        pl = strip(expand(fn, v[2][0][1]))
+        while pl[0] == 'call' and len(pl[2]) == 1 and re.search(r'(Box::<T>::new|Box::new)$', pl[1]):
+            pl = strip(pl[2][0])
+        return strip(pl[1]) if pl[0] == 'payload' and pl[2] == 'Some' else None
+    D = payload_src(somes[0][1])
+    if D is None or any(payload_src(v) != D for cs, v, k in somes):
+        return None
+    tests = lambda cs, lab: any(d == D and l == lab for d, c, l in cs)
+    if not all(tests(cs, 'Some') for cs, v, k in somes):
+        return None
+    if all(tests(cs, 'None') for cs, v, k in nones):
+        return D
+    # a None that is not tied to `D is None` is acceptable only as the starting value that `if let Some(d) = D { .. with_x(d) }`
+    # overwrites under exactly that test
+    over = [(cs, v, k) for cs, v, k in rows if k == 'over']
+    if over and all(v[0] == 'agg' and v[1].endswith('Option::Some') and len(cs) == 1 and tests(cs, 'Some') for cs, v, k in over) and \
+            all(k == 'base' for cs, v, k in nones) and all(k == 'over' for cs, v, k in somes):
+        return D
+    return None
+
+
 def struct_result_tables(fn, fields):
     """per-field decision tables of the struct a function returns (built by literals, constructors, builders, possibly in several
     arms): {field: [(conds, value)]} or None"""
